@@ -254,6 +254,8 @@ def ev(e, env, over=None, log=None, faults=None):
     from pymbolic.rational import Rational
     if isinstance(e, Rational):
         return ap(_truediv, r(e.numerator), r(e.denominator))
+    if hasattr(e, "vf_reference"):      # an application-defined node that says what it means
+        return r(e.vf_reference())
     raise TypeError(f"refsem: not evaluable: {type(e).__name__}")
 
 
